@@ -629,6 +629,35 @@ def c04_concurrent(req, resp, own, wit, res, final, pid='C04'):
     vs value after its last change of that key) is empty.  Only its own
     commits are looked at, so what other requests did in between is not
     attributed to it."""
+    if req['method'] not in READ_METHODS and 200 <= resp.status < 300 and \
+            is_alloc_write(req) and own and isinstance(req['body'], dict):
+        # an ACCEPTED allocation write: right after its last commit the
+        # consumers it placed carry the project / user / type it named
+        step = Step(req, resp, None, None)
+        body = req['body']
+        after = own[-1][1]
+        res.count('concurrent_accepted_judged')
+        for c, m_ in (placed(req) or {}).items():
+            e = body if step.route == 'alloc' else (
+                (body.get('allocations') or {}).get(c)
+                if step.route == 'reshaper' else body.get(c))
+            cur = after.consumers.get(c)
+            if not any(a > 0 for a in m_.values()) or cur is None or \
+                    not isinstance(e, dict):
+                continue
+            bad = ['%s %r, request says %r' % (col, cur[col], e[key])
+                   for key, col in (('project_id', 'project'),
+                                    ('user_id', 'user'),
+                                    ('consumer_type', 'type'))
+                   if key in e and cur[col] != e[key]]
+            if bad:
+                res.violation(
+                    '%s|accepted-write-partial-effect|concurrent|%s' % (
+                        pid, step.rname()),
+                    '%s accepted (%d) under concurrency but consumer %s '
+                    'has %s' % (step.rname(), resp.status, c,
+                                '; '.join(bad)), wit)
+        return
     if req['method'] in READ_METHODS or resp.status < 400 or \
             resp.status >= 500:
         return
